@@ -220,7 +220,7 @@ class proceed:
         the resumer's pairs, as a call made from there would, plus those of
         the pairs it added itself when it was entered that derive from a pair
         the resumer still has (that of a probe that is still active, that of
-        an enclosing call that is still running).
+        an enclosing function that is running).
         """
         outer_pairs = self.outer.handler_pairs if self.outer else []
         pairs = []
@@ -236,7 +236,9 @@ class proceed:
             if not selector.immediate:
                 push((selector, acc))
             for pair, (src_selector, src_acc) in self.own:
-                if src_selector is selector and src_acc is acc:
+                # (The same selector with another accumulator: the function
+                # it names is running again, a new call of it resumes us)
+                if src_selector is selector:
                     push(pair)
         self.inner = HandlerCollection(pairs)
 
